@@ -109,6 +109,12 @@ def correspondence(chk, snapshot):
         chk.compare(name, sops, strip(simpl), strip(smodel))
 
 
+def skoolkit_frame(e):
+    import traceback
+    tb = traceback.extract_tb(e.__traceback__)
+    return next((f'{os.path.basename(f.filename)}:{f.name}:{f.lineno}' for f in reversed(tb) if '/skoolkit/' in f.filename), None)
+
+
 def rand_machine(rng):
     m = rng.choice(('48K', '128K', '+2'))
     def bank():
@@ -152,7 +158,11 @@ def check_roundtrip(chk, snapshot, m, ram, regs, state, scratch):
         s = snapshot.Snapshot.get(fn)
         with open(fn, 'rb') as f:
             raw = f.read()
-        ind = (snapdec.decode_z80 if ext == 'z80' else snapdec.decode_szx)(raw)
+        try:
+            ind = (snapdec.decode_z80 if ext == 'z80' else snapdec.decode_szx)(raw)
+        except (ValueError, IndexError, AssertionError, KeyError) as e:
+            fails.append((f'{ext}-indep-unreadable', f'{ext}: the independent decoder cannot read the written file: {type(e).__name__} {e}'))
+            continue
         vals = {}
         for r, v in regs.items():
             vals[r] = getattr(s, ATTR.get(r, r))
@@ -200,8 +210,14 @@ def check_roundtrip(chk, snapshot, m, ram, regs, state, scratch):
                 fails.append((f'{ext}-ram128', f'{ext}: 128K RAM differs after round trip'))
             if [b for i in range(8) for b in ind['banks'].get(i, [])] != flat:
                 fails.append((f'{ext}-indep-ram128', f'{ext}: independent decoder reads different 128K RAM'))
+            # the 64K views: ram(p) = banks 5, 2, p; ram() = banks 5, 2 and the bank paged in by the saved 0x7FFD value
+            for p in list(range(8)) + [None]:
+                q = state.get('7ffd', 0) % 8 if p is None else p
+                if list(s.ram(p)) != list(ram[5]) + list(ram[2]) + list(ram[q]):
+                    fails.append((f'{ext}-ram128-page-view', f'{ext}: ram({p}) is not banks 5, 2, {q} of the written RAM'))
+                    break
         got[ext] = vals
-    for k in got['z80']:
+    for k in (got['z80'] if len(got) == 2 else ()):
         if got['z80'][k] != got['szx'][k]:
             fails.append((f'formats-differ-{k.split("[")[0]}', f'{k}: z80 reads {got["z80"][k]}, szx reads {got["szx"][k]}'))
     return fails
@@ -216,8 +232,14 @@ def e2e(chk, snapshot):
             frame = 69888 if m == '48K' else 70908
             state['tstates'] = rng.choice((frame, frame * 3 + 5, 2 ** 24 - 1, 2 ** 24, 2 ** 24 + 87, rng.randrange(2 ** 26)))
             want = state['tstates'] % frame
-        fails = check_roundtrip(chk, snapshot, m, ram, dict(regs), {**state, **({'tstates': state['tstates']})}, chk.scratch) \
-            if state['tstates'] < (69888 if m == '48K' else 70908) else check_abs_t(chk, snapshot, m, ram, regs, state)
+        try:
+            fails = check_roundtrip(chk, snapshot, m, ram, dict(regs), {**state, **({'tstates': state['tstates']})}, chk.scratch) \
+                if state['tstates'] < (69888 if m == '48K' else 70908) else check_abs_t(chk, snapshot, m, ram, regs, state)
+        except Exception as e:   # noqa: writing or reading back a valid machine state raised
+            where = skoolkit_frame(e)
+            if where is None:
+                raise
+            fails = [(f'roundtrip-crash-{type(e).__name__}', f'{m}: write_snapshot/Snapshot.get raised {type(e).__name__}: {e} (in {where})')]
         chk.case(f'e2e-{m}', ('e2e', n), {'machine': m, 'regs': regs, 'state': {k: v for k, v in state.items() if not k.startswith('ay')}})
         for key, desc in fails:
             chk.violation(key, desc, {'kind': 'snapshot', 'machine': m, 'regs': regs, 'state': state,
@@ -254,8 +276,10 @@ def run(chk):
                 'ranges/steps/operators, bank prefixes 0..7 and beyond, malformed specs. '
                 'E2E: write_snapshot->Snapshot.get + independent decoder on random machines; snapmod.main and bin2sna.main over option sets '
                 '(every register name, every state attribute, all 81 source/destination prefix combinations of --move, pokes, patches, mixed) '
-                'on 48K/128K/+2 .z80 (v1,v2,v3) and .szx inputs against an oracle written from the manual pages. '
-                'non-trivial = distinct op/spec/option set')
+                'on 48K/128K/+2 .z80 (v1,v2,v3) and .szx inputs against an oracle written from the manual pages; directed groups: every state '
+                'attribute on its own, --reg pc=0 on a version 1 file, bin2sna --reg pc / --reg sp / --state border without --start / --stack / '
+                '--border, the 64K views ram(0..7) and ram() of every 128K round trip; the independent Z80 decoder is strict (end marker, '
+                'block lengths). non-trivial = distinct op/spec/option set')
     chk.trusted += ['hand models lean/SkoolVerif/Model/{Z80Rle,SnapHeader,SnapEdit}.lean tied by correspondence (harness/props/c09.py, c09_edit.py)',
                     'independent decoder harness/indep/snapdec.py and option oracle harness/indep/snapedit_oracle.py (written from the format '
                     'descriptions / manual pages)', 'zlib (SZX RAM pages), CPython list/slice semantics (modelled in SnapEdit.pySlice/pySliceSet)']
@@ -270,10 +294,26 @@ def run(chk):
     chk.audit(PROPS)
     if chk.thorough and ok:
         chk.leanchecker(MODULES)
-    correspondence(chk, snapshot)
+    try:
+        correspondence(chk, snapshot)
+    except Exception as e:   # noqa: raised by skoolkit while the correspondence inputs were evaluated
+        where = skoolkit_frame(e)
+        if where is None:
+            raise
+        chk.breaks.append({'kind': 'correspondence', 'name': 'C09 models vs skoolkit.snapshot',
+                           'detail': f'the real code raised {type(e).__name__}: {e} (in {where}) while the correspondence inputs were evaluated'})
     e2e(chk, snapshot)
-    c09_e2e.snapmod_sweep(chk, (snapshot, snapmod))
-    c09_e2e.bin2sna_sweep(chk, (snapshot, snapmod), bin2sna)
+    for name, sweep in (('snapmod sweep', lambda: c09_e2e.snapmod_sweep(chk, (snapshot, snapmod))),
+                        ('bin2sna sweep', lambda: c09_e2e.bin2sna_sweep(chk, (snapshot, snapmod), bin2sna))):
+        try:
+            sweep()
+        except c09_e2e.Unreadable:
+            pass                 # reported as a violation where it was found; the rest of the sweep has no starting point
+        except Exception as e:   # noqa: the real code raised outside a tool run (writing / reading an input snapshot)
+            where = skoolkit_frame(e)
+            if where is None:
+                raise
+            chk.breaks.append({'kind': 'e2e', 'name': name, 'detail': f'the real code raised {type(e).__name__}: {e} (in {where})'})
     unl = chk.extra.get('unlisted_findings')
     if unl:
         for k, v in unl.items():
@@ -282,7 +322,7 @@ def run(chk):
 
 def replay(chk, data):
     (snapshot, snapmod, bin2sna) = fresh_import('skoolkit.snapshot', 'skoolkit.snapmod', 'skoolkit.bin2sna')
-    if data['kind'] in ('snapmod', 'bin2sna', 'input'):
+    if data['kind'] in ('snapmod', 'bin2sna', 'input', 'statecase'):
         return c09_e2e.replay_case(chk, (snapshot, snapmod), bin2sna, data)
     if data['kind'] == 'rle':
         z = snapshot.Z80()
@@ -296,6 +336,11 @@ def replay(chk, data):
     else:
         ram = [[rng.randrange(256) for _ in range(16384)] for _ in range(8)]
     frame = 69888 if m == '48K' else 70908
-    if data['state']['tstates'] >= frame:
-        return bool(check_abs_t(chk, snapshot, m, ram, data['regs'], data['state']))
-    return bool(check_roundtrip(chk, snapshot, m, ram, data['regs'], data['state'], chk.scratch))
+    try:
+        if data['state']['tstates'] >= frame:
+            return bool(check_abs_t(chk, snapshot, m, ram, data['regs'], data['state']))
+        return bool(check_roundtrip(chk, snapshot, m, ram, data['regs'], data['state'], chk.scratch))
+    except Exception as e:   # noqa
+        if skoolkit_frame(e) is None:
+            raise
+        return True
